@@ -7,6 +7,32 @@ V = os.path.dirname(os.path.dirname(os.path.abspath(__file__)))
 props = [json.loads(l) for l in open(os.path.join(V, 'properties.jsonl'))]
 
 CLAIMED = {
+    'C08': dict(
+        text='MC_IT: TLC runs the whole specified machine (real fetch from memory, decode, condition, execute, IT advance, '
+             'IRQ entry, exception return) on IT fc,mask + five register-incrementing instructions for every legal (firstcond, '
+             'mask) x NZCV x 3 instruction menus (16-bit ADDS encodings, 32-bit ADD.W, a flag-setting CMP) x IRQ position, '
+             'deadlock-checked, and requires the final registers the IT instruction\'s declarative description predicts, the '
+             'block condition at every step, IT = 0 in the handler and after the block. Every scenario TLC finished (quick: every '
+             '6th) is assembled into RAM and single-stepped on the real code (IRQ via take_physical_irq_exception, return by SUBS '
+             'PC,LR,#4); TLC judges every step on the full state; plus random IT-block programs.',
+        note='menus are fixed instruction shapes; exceptions other than IRQ at block positions are covered by C11/C12 events; '
+             'exception return inside an IT block is treated as unsure.',
+        technique='TLC model checking of the machine spec on IT programs + replay of TLC scenarios on the implementation judged by TLC',
+        ref='DESIGN.md §4 C08'),
+    'C12': dict(
+        text='MC_PSR: TLC checks CPSRWriteByInstr/SPSRWriteByInstr against the property (unprivileged code cannot alter A/I/F/M; '
+             'T/J/IT only on exception return; no reserved/illegal mode installed; NMFI; SCR.AW/FW; byte-mask discipline) over '
+             'mask x return flag x mode x all 32 mode values x secure/non-secure x NMFI x AW/FW x RFR x extensions (1.1e6 states '
+             'thorough). MC_Return: entry + standard return (SUBS PC,LR / RFE / LDM^, ARM and Thumb handlers) is the identity on '
+             'the interrupted program. Conformance: the real cpsr/spsr_write_by_instr on the matrix, MSR/MRS/CPS/SETEND/hints/'
+             'SUBS PC,LR/RFE/SRS/LDM^/STM^/SVC/SMC words in every mode and three extension configurations, and entry+return '
+             'programs, all judged by TLC on the full state.',
+        note='coprocessor access-control gating (CDP/MCR/MRC/LDC/STC) is not specified: those words are covered only by the '
+             'envelope properties; ERET A1 and banked MRS/MSR are documented as not implemented by the emulator; HSR syndromes '
+             'are don\'t-care.',
+        technique='TLC model checking of the PSR-write and return specs + TLC trace validation of API calls and instructions',
+        ref='DESIGN.md §4 C12'),
+
     'C13': dict(
         text='MC_Mem: TLC checks Mem.tla (MemA/MemU pseudocode over the hub model) against the property\'s decision table '
              '(fault / legacy align-down / byte-wise), exact footprint, byte order by CPSR.E, store-load round trip, '
